@@ -282,7 +282,7 @@ def gen_recipe_case(rng, big_count=None, outputs=None, k9=False):
         tb = rng.choice(tabs) if rng.random() < 0.92 else HIDDEN_TABLE
         t = gen_template(rng, tb, list(known), nvalues, 0, small)
         templates.append(t)
-        if not tb.startswith("__"):
+        if not tb.startswith("__") and (t["count"] != 0 or rng.random() < 0.1):
             known.append(tb)
     if k9:
         # make sure the rejected value reaches a visible table exactly through a plain field
@@ -508,6 +508,8 @@ def decode_json(path):
     recs = []
     for obj in data:
         t = obj.get("_table")
+        if not isinstance(t, str):
+            t = "?"
         row = []
         for k, x in obj.items():
             if k == "_table":
@@ -644,6 +646,8 @@ def compare_row(fmt, table, raw, got, ti):
         if k not in gotd:
             return "cell: %s output, table %s: field %s of a row has no column" % (fmt, table, k)
         e = exp_cell(fmt, k == "id", v)
+        if e == ["reject"] and gotd[k] == ["text", str(v[1] if v[0] == "int" else v[2])]:
+            continue    # a database that keeps the digits as text has lost nothing
         if e is not None and gotd[k] != e:
             return "cell: %s output, table %s field %s: value %r was written as %r, expected %r" % (fmt, table, k, v, gotd[k], e)
     empty = ["text", ""] if fmt == "csv" else ["null"]
@@ -1164,6 +1168,8 @@ def row_terms(case, outputs_obs, limit):
     terms, seen = [], set()
     for o in outputs_obs:
         fmt = o["fmt"]
+        if fmt == "csv" and not o.get("closed", True):
+            continue
         for t, raw, got in o.get("samples", []):
             if len(terms) >= limit:
                 return terms
@@ -1183,7 +1189,8 @@ def row_terms(case, outputs_obs, limit):
 
 
 def schema_term(case, outputs_obs):
-    csvs = [o["cols"] for o in outputs_obs if o["fmt"] == "csv" and o.get("cols") and not o.get("undecodable")]
+    csvs = [o["cols"] for o in outputs_obs if o["fmt"] == "csv" and o.get("cols") and not o.get("undecodable")
+            and o.get("closed", True)]      # files of a stream that was never closed may be incomplete
     dbs = [o["cols"] for o in outputs_obs if o["fmt"] in ("db", "sql") and o.get("cols") and o.get("closed", True)]
     terms = []
     tp = ctemplates(case["templates"])
@@ -1211,6 +1218,8 @@ def summary_term(o):
     if o["fmt"] in ("db", "sql"):
         cnt = C.clist(C.cpair(C.cstr(t), C.cz(n)) for t, n in sorted(o["counts"].items()))
         return f"SumDb {C.cbool(o['closed'])} {cnt}"
+    if o["fmt"] == "csv" and not o["closed"]:
+        return "SumFile false (-1)"     # files never closed: what reached the disk is not determined
     return "SumFile %s %s" % (C.cbool(o["closed"]), C.cz(sum(o["counts"].values())))
 
 
@@ -1359,8 +1368,7 @@ def match_finding(case, obs, msg, findings):
     ids = {f["id"] for f in findings}
     if "K9" in ids and case.get("kind") == "recipe" and isinstance(obs, dict) and obs.get("run") == "ok" \
             and obs.get("could_not_close", 0) > 0 and case_has_k9(case, obs) \
-            and msg.split(":")[0] in ("rows-lost", "unclosed", "schema"):
-        # schema: a never-dumped SQL script has no tables at all
+            and msg.split(":")[0] in ("rows-lost", "unclosed"):
         return "K9"
     return None
 
